@@ -52,7 +52,8 @@ def build(r, resolve):
         vs = [puan.variable(v[0], (v[1], v[2])) for v in r[3]]
         dt = np.dtype(r[2])
         dpv = None if r[4] is None else np.array(r[4], dtype=np.int64)
-        return pnd.ge_polyhedron_config(np.array(r[1], dtype=dt), default_prio_vector=dpv, variables=vs, dtype=dt.type)
+        mat = np.array(r[1], dtype=dt).reshape(len(r[1]), len(vs))
+        return pnd.ge_polyhedron_config(mat, default_prio_vector=dpv, variables=vs, dtype=dt.type)
     if t == "ref":
         return resolve(r[1])
     ch = lambda xs: [build(x, resolve) for x in xs]
@@ -112,7 +113,14 @@ def decode_interp(d):
 
 
 def decode_weights(d):
-    return {k: v for k, v in d}
+    """weights may be python ints, numpy integers (["np", v]) or integral floats (["fl", v])"""
+    out = {}
+    for k, v in d:
+        if isinstance(v, list):
+            out[k] = np.int64(v[1]) if v[0] == "np" else float(v[1])
+        else:
+            out[k] = v
+    return out
 
 
 class _CallbackAbort(RuntimeError):
